@@ -577,7 +577,7 @@ def has_dup_const_memwrite(block):
 
 def run(ctx):
     quick = ctx.tier == 'quick'
-    ndesigns = (len(DIRECTED) + 7) if quick else (len(DIRECTED) + 120)
+    ndesigns = (len(DIRECTED) + 5) if quick else (len(DIRECTED) + 120)
     ncyc_max = 6 if quick else 12
     max_model_nets = 320 if quick else 700
     cases = []          # one per (design, form): shared dump + stimulus + spec
